@@ -1420,7 +1420,7 @@ class Exec:
                 i = z3.Const(fresh_name("i"), z3.IntSort())
                 arrs = [z3.Lambda([i], z3.Select(a, i + lo)) for a in arrs_of(base)]
                 return SeqV(base.shape, arrs if len(arrs) > 1 else arrs[0], hi - lo)
-            i = self.as_index(idx)
+            i = z3.simplify(self.as_index(idx))
             if isinstance(i, z3.IntNumRef) and i.as_long() < 0:
                 i = base.n + i
             self.oblige(f"{self.qualname}/index_in_bounds@{self.cur_line - self.fnode.lineno}", z3.And(i >= 0, i < base.n), "safety", self.cur_line)
